@@ -4,6 +4,8 @@
   token formats (mirrored by harness/kinds_av1.go)
     hdr     <type> (none | some <t> <s> <r>) <hasSize> <reserved1>
     obu     hdr <payload bytes>
+    obuW    obu <width>            (c13.rt: width of the obu_size field, 0 = minimal)
+    c09.av1packet input: <reuse> <n> (<obytes> <always>)*   (always: ReadFrames also after a refusal)
     view    <z> <y> <w> <n> <list bytes>
 -/
 import Driver.Common
